@@ -1494,6 +1494,7 @@ std::vector<double> GridLocalPolynomial::getNormalization() const{
             if (norms[j] < std::abs(v[j])) norms[j] = std::abs(v[j]);
         }
     }
+    for(auto &n : norms) if (n == 0.0) n = 1.0; // an output that is identically zero has zero surpluses, 0/0 would fail every tolerance test
     return norms;
 }
 
